@@ -448,15 +448,14 @@ class Lib:
         return SV(z3.If(n > 0, n, 0))
 
     def power(self, I, a, b, node):
-        if isinstance(b, int) and not isinstance(b, bool) and 0 <= b <= 8:
-            if b == 0:
-                return 1
-            acc = a
-            for _ in range(b - 1):
-                acc = I.binop("*", acc, a, node)
-            return acc
-        if isinstance(b, int) and b < 0 and b >= -8:
-            return I.binop("/", 1, self.power(I, a, -b, node), node)
+        if isinstance(a, Obj):
+            return I.obj_binop("**", "__pow__", "__rpow__", a, b, node)
+        if isinstance(b, Obj):
+            return I.obj_binop("**", "__pow__", "__rpow__", a, b, node)
+        if isinstance(a, (int, float)) and isinstance(b, (int, float)):
+            return a ** b
+        if isinstance(b, (int, float)) and not isinstance(b, bool) and b in (0, 1):
+            return 1 if b == 0 else a
         I.ctx.note_assumption(A_REAL)
         if isinstance(b, float) and b == 0.5:
             pass
